@@ -29,7 +29,7 @@ CONSTANT Dev,      \* set of deviation names
 
 DevNames == {"css_no_eof", "hdrparam_no_eof", "string_no_eof",
              "blockcomment_no_eof", "soydoc_no_eof", "literal_no_eof",
-             "soydocparam_eof_underflow", "begintag_self", "neg_unicode_digit"}
+             "soydocparam_eof_underflow", "begintag_self", "neg_unicode_digit", "literal_close_mismatch"}
 
 Classes == {"lb", "rb", "sl", "st", "bs", "sp", "nl", "dol", "dot", "q",
             "lbk", "rbk", "min", "dig", "dq", "sq", "eq", "pipe", "com",
@@ -264,12 +264,28 @@ TrSpecial(c) ==
     [] pc = "CSS_dd" -> IF c = "rb" THEN {Emit(Ret("Text"), FALSE)} ELSE {Err}
     [] pc = "LIT" ->
          CASE c = "sp" -> {O("LIT")}
-           [] c = "rb" -> IF dd THEN {O("LIT_dd")} ELSE {Emit(O("LIT_b"), FALSE)}
+           [] c = "rb" -> IF dd THEN {O("LIT_dd")} ELSE {[Emit(O("LIT_b"), FALSE) EXCEPT !.f1 = "0"]}
            [] OTHER -> {Err}
-    [] pc = "LIT_dd" -> IF c = "rb" THEN {Emit(O("LIT_b"), FALSE)} ELSE {Err}
-    [] pc = "LIT_b" ->                \* strings.Index for the closing tag
-         (IF c = "EOF" THEN (IF "literal_no_eof" \in Dev THEN {O("LIT_b")} ELSE {Err}) ELSE {O("LIT_b")})
+    [] pc = "LIT_dd" -> IF c = "rb" THEN {[Emit(O("LIT_b"), FALSE) EXCEPT !.f1 = "0"]} ELSE {Err}
+    [] pc = "LIT_b" ->
+         \* strings.Index for the closing tag OF THE SAME BRACE FORM as the opening
+         \* tag ({/literal} or {{/literal}}); f1 = "0" while the body is empty.
+         \* Before each character the environment may place (a) the right closer,
+         \* (b) the closer of the OTHER form: under single braces "{{/literal}}"
+         \* contains the right closer and ends the block; under double braces
+         \* "{/literal}" is body text.
+         (IF c = "EOF" THEN (IF "literal_no_eof" \in Dev THEN {O("LIT_b")} ELSE {Err})
+          ELSE {[O("LIT_b") EXCEPT !.f1 = "1"]})
          \cup {[Emit(Back(Ret("Text"), <<c>>), FALSE) EXCEPT !.mkb = "#litend"]}
+         \cup (IF ~dd THEN {[Emit(Back(Ret("Text"), <<c>>), FALSE) EXCEPT !.mkb = "#litother"]}
+               ELSE IF "literal_close_mismatch" \in Dev
+               \* the search looks for "{/literal}" only and steps one byte back for the
+               \* second brace: with an empty body that is before the body -> slice panic;
+               \* otherwise the block is (wrongly) closed
+               THEN (IF f1 = "0" THEN {[O("END") EXCEPT !.fin = "crash", !.mkb = "#litother"]}
+                     ELSE {[Emit(Back(Ret("Text"), <<c>>), FALSE) EXCEPT !.mkb = "#litother"]})
+               ELSE IF c = "EOF" THEN {[Err EXCEPT !.mkb = "#litother"]}
+               ELSE {[O("LIT_b") EXCEPT !.f1 = "1", !.mkb = "#litother"]})
 
 Tr(c) ==
   CASE pc \in {"T", "T_sl", "T_st", "LC", "BC", "SD", "SDP", "SDP_q", "SDP_sk", "SDP_id"} -> TrText(c)
